@@ -162,6 +162,18 @@ CHECKS['C15'] = dict(
     technique="Coq proof (totality of checked-index scanner models, refutation of the pinned variants) + scanner-level differential check (ASan) + sanitizer fuzzing of the whole programs (a search, supporting the proof, not replacing it)",
     ref="5/C15")
 
+CHECKS['C08'] = dict(
+    text="Proof (partial): for every table of object-like macros (self-, mutual and forward reference, any nesting), every text and every amount of fuel, the lexer's stack of active "
+         "expansions (get_identifier / expand_manifest / push_expansion with _ignore_manifest and should_ignore_manifest) produces exactly the tokens of the hide-set algorithm of C11 "
+         "6.10.3.4 (lock-step simulation: the tokens of a frame carry the hide set of the macros of that frame and below), also with #define/#undef/redefinition interleaved with text; "
+         "completed results do not depend on fuel. Correspondence: generated object-like programs through parse_file -E, the extracted machine and gcc -E (which also validates the Coq "
+         "semantics). Function-like replacement is compared with gcc -E token for token on two generated fragments on which the code conforms (nested calls in arguments; #, ##, "
+         "__VA_ARGS__, __VA_OPT__, literals holding macro/parameter names and commas, empty and parenthesised-comma arguments, #undef, push_macro/pop_macro, -D, multi-line calls); "
+         "departures outside them are recorded witness programs.",
+    note=TB + "function-like macros are not modelled in Coq (tested against gcc on the stated fragments); gcc 12 -E -P -std=c++23 is the conforming reference.",
+    technique="Coq proof (simulation between the expansion stack and hide sets, object-like fragment) + three-way differential check parse_file -E / extracted model / gcc -E; gcc-differential testing for function-like fragments",
+    ref="5/C08")
+
 PENDING = {
 }
 
